@@ -22,6 +22,11 @@ type seed struct {
 }
 
 var seeds = []seed{
+	{"CheckedAdd writes the container it read before the gate", "A2.stale", "roaring.go", "\t\tC := rb.highlowcontainer.getWritableContainerAtIndex(i)\n\t\toldcard := C.getCardinality()\n\t\tC = C.iaddReturnMinimized(lowbits(x))\n", "\t\tC := rb.highlowcontainer.getContainerAtIndex(i)\n\t\toldcard := C.getCardinality()\n\t\trb.highlowcontainer.getWritableContainerAtIndex(i)\n\t\tC = C.iaddReturnMinimized(lowbits(x))\n", "CheckedAdd|gate getWritableContainerAtIndex"},
+	{"bitmapContainer.validate trusts the cardinality field of a full container", "V3", "bitmapcontainer.go", "func (bc *bitmapContainer) validate() error {\n", "func (bc *bitmapContainer) validate() error {\n\tif bc.isFull() && len(bc.bitmap) == maxCapacity/64 {\n\t\treturn nil\n\t}\n", "bitmapContainer).validate|no early success"},
+	{"readFrom multiplies the run count in 16 bits", "U1", "roaringarray.go", "\t\t\tbuf, err := stream.Next(int(nr) * 4)\n", "\t\t\tbuf, err := stream.Next(int(nr * 4))\n", "readFrom|<uint16> * 4"},
+	{"OrCardinality reads the argument's chunk at the receiver's position", "IDX1", "roaring.go", "\t\t\t\t\tanswer += uint64(x2.highlowcontainer.getContainerAtIndex(pos2).getCardinality())\n", "\t\t\t\t\tanswer += uint64(x2.highlowcontainer.getContainerAtIndex(pos1).getCardinality())\n", "OrCardinality|cursor pos1"},
+	{"arrayContainer.iorRun16 drops the container returned by iaddRange", "RES1", "arraycontainer.go", "\t\t\tresult = result.iaddRange(int(run.start), int(run.start)+int(run.length)+1)\n", "\t\t\tresult.iaddRange(int(run.start), int(run.start)+int(run.length)+1)\n", "iorRun16|result of iaddRange"},
 	{"frozenView adds up the announced element totals in int", "T2", "serialization_littleendian.go", "\tvar nArrayEl, nRunEl uint64\n\tfor i, t := range types {\n\t\tswitch t {\n\t\tcase 1:\n\t\t\tnBitmap++\n\t\tcase 2:\n\t\t\tnArray++\n\t\t\tnArrayEl += uint64(counts[i]) + 1\n\t\tcase 3:\n\t\t\tnRun++\n\t\t\tnRunEl += uint64(counts[i])\n\t\tdefault:\n\t\t\treturn ErrFrozenBitmapInvalidTypecode\n\t\t}\n\t}\n\n\tif uint64(len(buf)) < (1<<13)*uint64(nBitmap)+4*nRunEl+2*nArrayEl {\n", "\tnArrayEl, nRunEl := 0, 0\n\tfor i, t := range types {\n\t\tswitch t {\n\t\tcase 1:\n\t\t\tnBitmap++\n\t\tcase 2:\n\t\t\tnArray++\n\t\t\tnArrayEl += int(counts[i]) + 1\n\t\tcase 3:\n\t\t\tnRun++\n\t\t\tnRunEl += int(counts[i])\n\t\tdefault:\n\t\t\treturn ErrFrozenBitmapInvalidTypecode\n\t\t}\n\t}\n\n\tif len(buf) < (1<<13)*nBitmap+4*nRunEl+2*nArrayEl {\n", "frozenView|total"},
 	{"64-bit BSI.Add reads the operand also when it is the receiver", "F10.bsi", "roaring64/bsi64.go", "\tif other == b {\n\t\t// doubling: the carries rewrite the planes that are still to be read\n\t\tother = b.Clone()\n\t}\n\n\tb.eBM.Or(&other.eBM)", "\tb.eBM.Or(&other.eBM)", "(*roaring64.BSI).Add|self-application"},
 	{"PreviousValue steps its chunk index in the for clause and in the body", "LP1", "roaring.go", "\tfor containerIndex != -1 && prevValue == -1 {\n", "\tfor ; containerIndex >= 0 && prevValue == -1; containerIndex-- {\n", "PreviousValue|for containerIndex"},
